@@ -96,3 +96,5 @@ KINDS = {
 for _c in ('builtin', 'silent', 'tamper-bcast', 'tamper-ucast', 'outcast'):
     KINDS['tsig.schnorr.' + _c] = KINDS['tsig.schnorr']
     KINDS['tsig.dsa.' + _c] = KINDS['tsig.dsa']
+# signatures of runs in which the harness observed the root cause of the known finding "DKG erases a party from QUAL"
+KINDS['tsig.dsa.dkg-qual-erased'] = KINDS['tsig.dsa']
